@@ -278,6 +278,49 @@ fn interrogate(run: &Run, hist: &[Op], s: &Scheme, m: &Model) {
     if *s != c {
         bad("a scheme is not equal to its clone".into());
     }
+    // owned handles (`to_owned` / `as_ref` / `reborrow`) denote the same entry, on the scheme and on its clone
+    let handles = guarded(|| {
+        let mut problems = Vec::new();
+        for f in s.fields() {
+            let o = f.to_owned();
+            if o.name() != f.name() || o.index() != f.index() || o.optional() != f.optional() || o.get_type() != f.get_type() || o.as_ref() != f || o != f {
+                problems.push(format!("the owned handle of field {:?} differs from the borrowed one", f.name()));
+            }
+            let r = o.as_ref().reborrow(&c);
+            if r.name() != f.name() || r.index() != f.index() || c.get_field(f.name()).ok() != Some(r) {
+                problems.push(format!("field {:?} reborrowed on the clone is not the clone's field of that name", f.name()));
+            }
+            // a value goes in through the owned handle and is read back through the name
+            let mut ctx = wirefilter::ExecutionContext::<()>::new(s);
+            let set = if f.get_type() == Type::Int { ctx.set_field_value(o.as_ref(), 5i64).is_ok() } else { ctx.set_field_value(o.as_ref(), "v").is_ok() };
+            let back = ctx.get_field_value(s.get_field(f.name()).unwrap()).is_some();
+            let elsewhere = s.fields().filter(|g| g.name() != f.name()).any(|g| ctx.get_field_value(g).is_some());
+            if !set || !back || elsewhere {
+                problems.push(format!("a value set through the owned handle of {:?} is not what reading {:?} gives (set={set}, read back={back}, visible elsewhere={elsewhere})", f.name(), f.name()));
+            }
+        }
+        for g in s.functions() {
+            let o = g.to_owned();
+            if o.name() != g.name() || o.index() != g.index() || o.as_ref() != g || o != g || c.get_function(g.name()).ok() != Some(o.as_ref().reborrow(&c)) {
+                problems.push(format!("the owned handle of function {:?} differs from the borrowed one", g.name()));
+            }
+        }
+        for l in s.lists() {
+            let o = l.to_owned();
+            if o.get_type() != l.get_type() || o.as_ref() != l || o != l || c.get_list(&l.get_type()) != Some(o.as_ref().reborrow(&c)) {
+                problems.push(format!("the owned handle of the {:?} list differs from the borrowed one", l.get_type()));
+            }
+        }
+        problems
+    });
+    match handles {
+        Ok(ps) => {
+            for p in ps {
+                bad(p);
+            }
+        }
+        Err(p) => bad(format!("handling owned / reborrowed entries panicked: {p}")),
+    }
 }
 
 fn key_hash(k: &str) -> u64 {
